@@ -159,7 +159,20 @@ func (s *sim) reorg(depth int, log string) {
 	if depth >= 2 && touched {
 		s.deepReorgWithTx++
 	}
-	// sometimes flip back to the very same blocks later; otherwise a new branch
+	// between the disconnects and the new branch: the backend's tip is the fork
+	// point; repeated disconnect notifications (any subset, any order) must not
+	// move the wallet away from it
+	if s.f.Client != nil && rapid.Bool().Draw(s.t, "checkMidReorg") {
+		n := rapid.IntRange(0, len(s.orphans)).Draw(s.t, "repeatedDisconnects")
+		for i := 0; i < n; i++ {
+			b := s.orphans[rapid.IntRange(0, len(s.orphans)-1).Draw(s.t, "repeatWhich")]
+			s.f.Client.Push(chain.BlockDisconnected(wtxmgr.BlockMeta{Block: wtxmgr.Block{Height: b.Height, Hash: b.Hash}, Time: b.Time()}))
+			s.c.Logf("%s: disconnect of %d %s delivered again before the new branch", log, b.Height, b.Hash.String()[:8])
+			s.stale++
+		}
+		s.check("mid-reorg")
+		s.c.Class("checked-between-disconnect-and-new-branch")
+	}
 	newLen := depth + rapid.IntRange(0, 2).Draw(s.t, "extraLen")
 	s.extend(newLen, log+" new branch")
 }
